@@ -5,6 +5,7 @@ from __future__ import annotations
 import itertools
 import subprocess
 import tempfile
+import ast
 import time
 import traceback
 import os
@@ -278,10 +279,107 @@ def make_glob(spec, name, st):
     return named(spec, name)
 
 
+def ordered_locals(fn):
+    """names bound in the function, in order of first binding (parameters excluded): the positional identity of its locals"""
+    params = {a.arg for a in fn.args.posonlyargs + fn.args.args + fn.args.kwonlyargs}
+    if fn.args.vararg:
+        params.add(fn.args.vararg.arg)
+    if fn.args.kwarg:
+        params.add(fn.args.kwarg.arg)
+    seen = []
+
+    def bind(t):
+        if isinstance(t, ast.Name):
+            if t.id not in params and t.id not in seen:
+                seen.append(t.id)
+        elif isinstance(t, (ast.Tuple, ast.List)):
+            for e in t.elts:
+                bind(e)
+        elif isinstance(t, ast.Starred):
+            bind(t.value)
+
+    def walk(body):
+        for st in body:
+            if isinstance(st, (ast.FunctionDef, ast.AsyncFunctionDef, ast.ClassDef)):
+                continue
+            if isinstance(st, ast.Assign):
+                for t in st.targets:
+                    bind(t)
+            elif isinstance(st, (ast.AugAssign, ast.AnnAssign)):
+                bind(st.target)
+            elif isinstance(st, (ast.For, ast.AsyncFor)):
+                bind(st.target)
+            elif isinstance(st, (ast.With, ast.AsyncWith)):
+                for it in st.items:
+                    if it.optional_vars is not None:
+                        bind(it.optional_vars)
+            for attr in ("body", "orelse", "finalbody"):
+                sub = getattr(st, attr, None)
+                if isinstance(sub, list):
+                    walk(sub)
+            for h in getattr(st, "handlers", []) or []:
+                if h.name and h.name not in seen and h.name not in params:
+                    seen.append(h.name)
+                walk(h.body)
+    walk(fn.body)
+    return seen
+
+
+def rename_locals_in_contract(c, ren):
+    """a copy of the contract whose loop invariants / variants / clauses speak about the function's locals under their current names"""
+    import copy
+    import re as _re
+    if not ren:
+        return c
+    pat = _re.compile(r"\b(" + "|".join(_re.escape(k) for k in ren) + r")\b")
+
+    def sub(x):
+        if isinstance(x, str):
+            return pat.sub(lambda m: ren[m.group(1)], x)
+        if isinstance(x, list):
+            return [sub(y) for y in x]
+        if isinstance(x, tuple):
+            return tuple(sub(y) for y in x)
+        if isinstance(x, dict):
+            return {k: sub(v) for k, v in x.items()}
+        return x
+    c2 = copy.copy(c)
+    c2.loops = sub(c.loops)
+    c2.ensures = sub(c.ensures)
+    c2.on_raise = sub(c.on_raise)
+    c2.lemmas = sub(c.lemmas)
+    return c2
+
+
 def prove_variant(reg, modules, file, qual, variant, timeout_ms=10000, prefix="", extra_setup=None):
     c = reg.lookup(file, qual)
     mi = modules[file]
     fn = mi.find(qual)
+    # a contract names locals of the function (loop invariants); if the function's locals were renamed since the baseline was written -
+    # same number of locals, same order of first binding - the contract is read under the new names (a rename is not a change of behaviour)
+    pinned = getattr(reg, "pinned_locals", {}).get(f"{file}:{qual}")
+    if pinned:
+        actual = ordered_locals(fn)
+        if pinned != actual:
+            # names kept by the source are anchors; between two anchors, a run of vanished names is mapped onto the run of new names
+            # when both runs have the same length (new temporaries elsewhere do not disturb the mapping)
+            ren = {}
+            anchors = [n for n in pinned if n in actual]
+            if [n for n in actual if n in anchors] == anchors:
+                def runs(seq):
+                    out, cur = [], []
+                    for n in seq:
+                        if n in anchors:
+                            out.append(cur)
+                            cur = []
+                        else:
+                            cur.append(n)
+                    out.append(cur)
+                    return out
+                for old_run, new_run in zip(runs(pinned), runs(actual)):
+                    if old_run and len(old_run) == len(new_run):
+                        ren.update(dict(zip(old_run, new_run)))
+            c = rename_locals_in_contract(c, ren)
     res = UnitResult(qual, variant_label(variant))
     t0 = time.time()
     eng = Engine(reg, modules, timeout_ms, prefix)
